@@ -286,6 +286,13 @@ def tt_terminal_filter(repo, tier="quick"):
                 return True, [T, T2]
             if isinstance(e, ast.Subscript) and id(e) in cfg.owner:
                 ct = fl.canon(e, cfg.node_for(e))
+                # the drawn values held in a record: site[2] is the partner descriptor
+                if ct == C:
+                    return True, Cval
+                if ct == B:
+                    return True, B0
+                if ct == S:
+                    return True, "SITE"
                 na = node_attr(ct)
                 if na and na[0] == g.molecule and na[1] == S and na[2] == ("const", "bonding"):
                     if store["bonding"] is DELETED:
